@@ -117,7 +117,7 @@ prop("C15",
 
 prop("C13",
      [r_si.rule_suffix_after_insert, r_si.rule_suffix_algo, r_si.rule_session_only, r_si.rule_unknown, r_si.rule_compare,
-      r_si.rule_pk_state, r_wl.rule_orig_mnem],
+      r_si.rule_pk_state, r_wl.rule_orig_mnem, r_wl.rule_hdr_post],
      "Pairing rule on CFG paths: in every SectionItems method each placement of an item through list.append/insert/"
      "__setitem__/extend is followed on every path to a normal return by assign_duplicate_suffixes, called "
      "unconditionally with the new item's useful_mnemonic; LASFile.set_data re-assigns all suffixes after renaming "
@@ -134,7 +134,7 @@ prop("C13",
                 "shape; distinctness for every multiset/history is not decided.")
 
 prop("C17",
-     [r_si.rule_pk_state, r_si.rule_pk_rebuild, r_si.rule_pk_ctor, r_si.rule_pk_independent, r_si.rule_suffix_algo],
+     [r_si.rule_pk_state, r_si.rule_pk_rebuild, r_si.rule_pk_ctor, r_si.rule_pk_independent, r_si.rule_pk_list_restore, r_si.rule_suffix_algo],
      "State-coverage check: the census of attributes an item can hold (every self.X store and "
      "__setattr__('X') in HeaderItem/CurveItem) is compared with what HeaderItem.__reduce__ hands to the "
      "constructor and to __setstate__: argument 0 derives from self.original_mnemonic (not the session name), the "
@@ -238,7 +238,7 @@ prop("C07",
 prop("C01",
      [r_data.rule_wrap_count, r_data.rule_wrap_tokens, r_data.rule_null_write, r_data.rule_null_guard, r_data.rule_reshape,
       r_data.rule_counter, r_data.rule_null_flat, r_data.rule_read_subs, r_si.rule_compare, r_num.rule_numlit,
-      r_data.rule_data_format],
+      r_data.rule_data_format, r_data.rule_wrap_consistent],
      "Write->read pairing clauses: lasio's own wrapped output is re-read with the declared curve count, never the sniffed "
      "per-line count (DATA.WRAP-COUNT, explicit-state search under WRAP == YES); the writer's TextWrapper has "
      "width=data_width, break_long_words=False, break_on_hyphens=False, so lines break only at the blanks between values "
@@ -333,7 +333,8 @@ prop("C03",
 
 prop("C12",
      [r_wl.rule_ord_table, r_wl.rule_ord_bijection, r_wl.rule_key_norm, r_wl.rule_order_key, r_wl.rule_copy_vers,
-      r_wl.rule_measure, r_wl.rule_template, r_num.rule_curve_raw, r_hdrt.rule_steer_lookup],
+      r_wl.rule_measure, r_wl.rule_template, r_num.rule_curve_raw, r_hdrt.rule_steer_lookup,
+      r_data.rule_wrap_consistent, r_data.rule_wrap_tokens, r_data.rule_orient, r_data.rule_reshape, r_data.rule_wrap_count],
      "Order-table agreement: the folded defaults.ORDER_DEFINITIONS has every version the writer admits, all four "
      "sections per version, well-formed (order, mnemonics) exceptions, 1.x ~Well = descr:value except STRT/STOP/STEP/NULL "
      "and 2.x/3.0 = value:descr throughout; reader (SectionParser.__init__) and writer (get_section_order_function) "
@@ -351,7 +352,7 @@ prop("C12",
 prop("C11",
      [r_wl.rule_template, r_wl.rule_measure, r_wl.rule_order_key, r_wl.rule_orig_mnem, r_si.rule_session_only,
       r_si.rule_pk_state, r_wrf.rule_refresh, r_wrf.rule_standardize, r_gr.rule_grammar, r_gr.rule_strip, r_wl.rule_key_norm,
-      r_wl.rule_ord_bijection, r_data.rule_wrap_count, r_data.rule_wrap_tokens],
+      r_wl.rule_ord_bijection, r_data.rule_wrap_count, r_data.rule_wrap_tokens, r_data.rule_data_format, r_data.rule_wrap_consistent],
      "Necessary conditions of the read->write fixed point only: the writer's template puts '.' directly before the unit "
      "and ' : ' before the tail, which the reader's structurally decided grammar splits back (WR.TEMPLATE, HDR.GRAMMAR) - "
      "no fields migrating between unit, value and description requires also that widths are measured on final values and "
@@ -373,7 +374,8 @@ def _to_csv_typestate(ctx):
 
 prop("C14",
      [r_lp.rule_views, r_lp.rule_route, r_lp.rule_rank, r_lp.rule_no_inplace, r_lp.rule_pu_fresh, r_si.rule_suffix_after_insert,
-      r_si.rule_session_only, r_si.rule_compare, r_si.rule_accessors],
+      r_si.rule_session_only, r_si.rule_compare, r_si.rule_accessors, r_lp.rule_no_alias_repeat, r_lp.rule_sentinel,
+      r_lp.rule_rename_reset],
      "List-model clauses: every view (keys, values, items, __getitem__, data, index, curvesdict, get_curve, df, "
      "stack_curves) reads curve state through self.curves only, and no LASFile attribute other than `sections` is ever "
      "assigned from curve data (attribute-store census with provenance; LF.VIEWS); the ten curve mutators change the list "
@@ -390,7 +392,7 @@ prop("C14",
      level_text="Static guarantee of the structural clauses of the list model; equivalence with a model under edit histories is not executed.")
 
 prop("C10",
-     [r_lp.rule_pu_global, r_lp.rule_pu_fresh, r_lp.rule_pu_channel, r_hdrt.rule_no_state],
+     [r_lp.rule_pu_global, r_lp.rule_pu_fresh, r_lp.rule_pu_channel, r_lp.rule_pu_table_alias, r_lp.rule_pu_rewind, r_hdrt.rule_no_state],
      "Purity by effect summaries: none of the functions reachable from LASFile.__init__/read (resolved call graph incl. "
      "property/__setattr__ hooks; closure size recorded) writes a module-level object, a class attribute or a mutable "
      "default argument - an embedded impure function must be flagged on every run as positive control (PU.GLOBAL); "
@@ -466,5 +468,38 @@ ALSO = {
     "C19": "Also: HDR.FLAG-FORWARD (read() forwards ignore_header_errors unchanged for every section) and SEC.END-TEST on the "
            "header loop (an error handler cannot advance the line counter, which would drop the last lines of the section).",
 }
+ALSO3 = {
+    "C01": "Round 3: WR.DATA-FORMAT (a finite sample is fmt % sample, padded but never cut or rounded first; only data rows are "
+           "wrapped) and WR.WRAP-CONSISTENT (rows are wrapped exactly under the `wrap` value the WRAP item is written from).",
+    "C10": "Round 3: PU.TABLE-ALIAS (flow-insensitive may-alias of locals with the module-level tables of lasio/defaults.py in every "
+           "function reachable from read(): no mutating call / += / subscript store on such a name), PU.REWIND (every peek on the "
+           "handle is followed by seek(0) before the section scan, whose line numbers the fast engine interprets from the start "
+           "of the file), PU.CHANNEL:always (the BOM override depends on the first bytes only, not on the encoding options).",
+    "C11": "Round 3: WR.DATA-FORMAT and WR.WRAP-CONSISTENT as for C01 (a clipped index value makes STRT/STOP drift on the second cycle).",
+    "C12": "Round 3: WR.WRAP-CONSISTENT, WR.WRAP-TOKENS, DATA.ORIENT, DATA.RESHAPE, DATA.WRAP-COUNT - wrap on/off selects different "
+           "reader engines, which must agree on the shape for every writer output, and the WRAP item must state the physical layout.",
+    "C13": "Round 3: HDR.POST (the builders hand the name read from the file to HeaderItem unchanged apart from the requested case mapping).",
+    "C14": "Round 3: LF.NO-ALIAS-REPEAT (no `[CurveItem()] * n`: each slot has its own item), LF.SENTINEL (value arguments with a "
+           "False = 'not given' default are tested by identity only, so '' and 0 can be stored), SI.RENAME-RESET (every assignment to "
+           ".mnemonic records original_mnemonic and resets the session name on all CFG paths - set_data relies on it to drop stale suffixes).",
+    "C15": "Round 3: the positional fall-through of __getitem__/__delitem__ is list access with the key itself under "
+           "isinstance(key, (int, slice)); a position computed from the key (int(key)) is a violation.",
+    "C16": "Round 3: the two refresh flags are computed, never defaulted inside an exception handler, and without float()/int() "
+           "conversions of the STOP item.",
+    "C17": "Round 3: PK.LIST-RESTORE - the generic protocols refill a list subclass through fixed methods of the copy "
+           "(copy._reconstruct: append; unpickler protocol >= 2: extend); since SectionItems.append renumbers duplicate suffixes, "
+           "__deepcopy__ must restore the items without it, and extend must not be overridden with a hook (D24 was found this way).",
+    "C18": "Round 3: EX.DF also requires the all-or-nothing column conversion (astype inside except ValueError: pass; no to_numeric / "
+           "errors='coerce'); EX.CSV also requires that the caller's mnemonics/units lists are never modified in place; EX.JSON-NAN is "
+           "source-based over all methods of the encoder class; EX.DEPTH-ALGEBRA also understands a table of (code, to-metres, to-feet) rows.",
+    "C20": "Round 3: a handle stored in a context-manager class of lasio's own is accepted when __exit__ closes exactly that attribute "
+           "(flag-guarded when it may hold the caller's object) and every instantiation is the subject of a with-statement.",
+}
 for _pid, _txt in ALSO.items():
     PROPS[_pid]["explanation"] += " " + _txt
+for _pid, _txt in ALSO3.items():
+    PROPS[_pid]["explanation"] += " " + _txt
+for _pid in PROPS:
+    PROPS[_pid]["explanation"] += (" The source is analysed after a semantics-preserving normalisation (private literal constants "
+                                   "propagated, private helpers inlined, explicit iterator loops re-sugared); where a construct a rule needs "
+                                   "is not present in a form it understands the rule reports UNDECIDED (listed in this evidence) instead of a verdict.")
